@@ -152,6 +152,19 @@ theorem eraseIf_eq {cap : Nat} (k : Kind) (d : V) (p : Nat → Bool) (hc : cap <
   congr 2
   omega
 
+/-- NOT tetl's algorithm: the textbook single loop `for (; first != last; ++first) if (!pred(*first))
+    *result++ = move(*first);` without the leading `find_if` (the seeded change C01-remove-if-self-move).  While
+    nothing has been removed yet `result = first`, so every kept leading element is move-assigned to itself.  Only
+    used in an example of Props.lean showing that the model (`mvAsg`, element kind `hd`) tells the two apart. -/
+def naiveRemove (k : Kind) (p : Nat → Bool) (l : V) (result first : Nat) : Nat → Except Err (V × Nat)
+  | 0 => .ok (l, result)
+  | n + 1 => do
+    let x ← rd l first
+    if !p x then do
+      let l1 ← mvAsg k l result first
+      naiveRemove k p l1 (result + 1) (first + 1) n
+    else naiveRemove k p l result (first + 1) n
+
 /-! ### inplace_vector -/
 
 theorem back_append (d : V) (x : Nat) : back (d ++ [x]) = .ok x := by
